@@ -147,7 +147,7 @@ pub fn record_c01(out: &str, proc_id: usize, nitems: usize) {
         let gkey = format!("{gkey}|{:?}", from);
         let run = |lines: &[String]| -> Result<Vec<String>, String> {
             let (g, l, i, fr) = (item.groups.clone(), lines.to_vec(), item.into.clone(), from.clone());
-            match v::record(60_000, false, false, move || asca::run(&g, &l, &i, &fr)).result { Ok(Ok(o)) => Ok(o), Ok(Err(e)) => Err(err_key(&e)), Err(p) => Err(format!("PANIC {}", panic_text(&p))) }
+            match crate::util::rec(60_000, false, false, move || asca::run(&g, &l, &i, &fr)).result { Ok(Ok(o)) => Ok(o), Ok(Err(e)) => Err(err_key(&e)), Err(p) => Err(format!("PANIC {}", panic_text(&p))) }
         };
         let singles: Vec<Result<Vec<String>, String>> = item.lines.iter().map(|l| run(&[l.clone()])).collect();
         let all_ok = singles.iter().all(|s| s.is_ok());
@@ -170,7 +170,7 @@ pub fn record_c01(out: &str, proc_id: usize, nitems: usize) {
         for (pos, l) in item.lines.iter().enumerate() {
             ncall += 1; sum.vectors += 1;
             let (g, l2, i) = (item.groups.clone(), l.clone(), item.into.clone());
-            let r = match v::record(60_000, false, false, move || asca::get_trace_string(&g, l2, &i)).result { Ok(Ok(o)) => o.join("\n"), Ok(Err(e)) => format!("ERR {}", err_key(&e)), Err(p) => format!("PANIC {}", panic_text(&p)) };
+            let r = match crate::util::rec(60_000, false, false, move || asca::get_trace_string(&g, l2, &i)).result { Ok(Ok(o)) => o.join("\n"), Ok(Err(e)) => format!("ERR {}", err_key(&e)), Err(p) => format!("PANIC {}", panic_text(&p)) };
             put(&mut f, format!("trace {gkey} {l}"), pos, ncall, r);
         }
     }
